@@ -15,7 +15,16 @@ import (
 
 // C13: the same operation k times on one gateway under k different schedules.
 
-func init() { Registry["C13"] = scenDET }
+func init() {
+	Registry["C13"] = func(s *sched.Sim, cfg Config, res *Result) {
+		// one run in five: the same subscription event delivered several times
+		if s.T.Choose(5) == 0 {
+			scenSUB(s, cfg, res)
+			return
+		}
+		scenDET(s, cfg, res)
+	}
+}
 
 func errKey(e map[string]interface{}) string {
 	b, _ := json.Marshal(map[string]interface{}{"m": e["message"], "p": e["path"], "x": e["extensions"]})
@@ -29,6 +38,20 @@ func scenDET(s *sched.Sim, cfg Config, res *Result) {
 	maxSvc, k := 3, 8
 	if cfg.Thorough {
 		maxSvc, k = 4, 32
+	}
+	// determinism is demanded of every operation, also of the shapes whose *answers* are known to
+	// be wrong (open findings of C01/C02, switched off elsewhere): one run in three draws them
+	wild := s.T.Bool(1, 3)
+	if wild {
+		res.Probe("det.shapes-of-open-findings")
+		wf.Unions = s.T.Bool(1, 2)
+		for _, p := range []*bool{&of.AbstractFrags, &of.AbstractNested, &of.AbstractCondFrag, &of.AbstractFragMeta,
+			&of.IDWithFragments, &of.IDDirective, &of.FragDirectives, &of.NodeRoot, &of.VarNamedID} {
+			*p = s.T.Bool(1, 2)
+		}
+		on, off := parseFeat(cfg.Features)
+		applyWorldOverrides(&wf, on, off)
+		applyOpOverrides(&of, on, off)
 	}
 	w := gql.Generate(s.T, wf, maxSvc)
 	gc := drawGwConfig(s)
@@ -134,7 +157,16 @@ func scenDET(s *sched.Sim, cfg Config, res *Result) {
 				res.Violate(prop+"/status-differs", "repetition 0 status %d, repetition %d status %d", a.status, i, b.status)
 			}
 			if a.data != b.data {
-				res.Violate(prop+"/data-differs", "same operation, same gateway, same service answers: repetition 0 data %s\nrepetition %d data %s\nop: %s vars: %v", clipStr(a.data, 500), i, clipStr(b.data, 500), op.Text, op.Vars)
+				pa, pb := "", ""
+				if ps := env.plans["r0#0"]; len(ps) > 0 && ps[0] != nil {
+					sfj, _ := json.Marshal(ps[0].ScrubFields)
+					pa = planText(ps[0]) + " scrub=" + string(sfj)
+				}
+				if ps := env.plans[fmt.Sprintf("r%d#0", i)]; len(ps) > 0 && ps[0] != nil {
+					sfj, _ := json.Marshal(ps[0].ScrubFields)
+					pb = planText(ps[0]) + " scrub=" + string(sfj)
+				}
+				res.Violate(prop+"/data-differs", "same operation, same gateway, same service answers: repetition 0 data %s\nrepetition %d data %s\nop: %s vars: %v\nplan of repetition 0: %s\nplan of repetition %d: %s", clipStr(a.data, 500), i, clipStr(b.data, 500), op.Text, op.Vars, pa, i, pb)
 			}
 			if strings.Join(a.errs, "|") != strings.Join(b.errs, "|") {
 				res.Violate(prop+"/errors-differ", "same operation: repetition 0 errors %v\nrepetition %d errors %v\nop: %s", a.errs, i, b.errs, op.Text)
